@@ -137,7 +137,13 @@ fn evaluate_source(
                             match pair.as_rule() {
                                 Rule::identifier => {
                                     let identifier = pair.as_str();
-                                    if let Some(value) = bindings.get(identifier) {
+                                    // A name that evaluates without being a bound variable
+                                    // (a built-in such as `map`, or `inf`, `constants`) is
+                                    // output with the value it evaluated to.
+                                    let declared = bindings
+                                        .get(identifier)
+                                        .or_else(|| result.as_ref().ok().copied());
+                                    if let Some(value) = declared {
                                         // Validate that the value is portable
                                         if let Err(e) = validate_portable_value(
                                             &value,
